@@ -8,13 +8,13 @@ B_EMPTY, B_LOWDIM, B_TET, B_TET2_FACE, B_TET2_EDGE, B_TET2_VERTEX, B_TET3_RING, 
 BASE_COUNTS = {B_EMPTY: (0,0,0,0), B_LOWDIM: (5,5,1,0), B_TET: (4,6,4,1), B_TET2_FACE: (5,9,7,2), B_TET2_EDGE: (6,11,8,2), B_TET2_VERTEX: (7,12,8,2),
                B_TET3_RING: (5,9,9,3), B_HEX: (8,12,6,1), B_HEX2: (12,20,11,2), B_PRISM_PYR: (7,12,9,2), B_TRI2: (4,5,2,0), B_TET3_FAN: (6,12,10,3)}
 (OP_NONE, OP_DEL_V, OP_DEL_E, OP_DEL_F, OP_DEL_C, OP_ADD_V, OP_ADD_E, OP_ADD_E_DUP, OP_ADD_F, OP_ADD_C, OP_SWAP_V, OP_SWAP_E, OP_SWAP_F, OP_SWAP_C,
- OP_GC, OP_CLEAR, OP_BU_TOGGLE, OP_SET_E, OP_SET_F, OP_SET_C, OP_ADD_NV) = range(21)
+ OP_GC, OP_CLEAR, OP_BU_TOGGLE, OP_SET_E, OP_SET_F, OP_SET_C, OP_ADD_NV, OP_SET_MODE, OP_BU_OFF) = range(23)
 CASES_PER_QUERY = 8
 
 def op_count(base, op):
     nv, ne, nf, nc = BASE_COUNTS[base]
     return {OP_DEL_V: nv, OP_DEL_E: ne, OP_DEL_F: nf, OP_DEL_C: nc, OP_ADD_V: 1, OP_ADD_NV: 1, OP_GC: 1, OP_CLEAR: 1,
-            OP_ADD_E: nv*nv, OP_ADD_E_DUP: nv*nv, OP_SWAP_V: nv*nv, OP_SWAP_E: ne*ne, OP_SWAP_F: nf*nf, OP_SWAP_C: nc*nc, OP_BU_TOGGLE: 14}.get(op, 0)
+            OP_ADD_E: nv*nv, OP_ADD_E_DUP: nv*nv, OP_SWAP_V: nv*nv, OP_SWAP_E: ne*ne, OP_SWAP_F: nf*nf, OP_SWAP_C: nc*nc, OP_BU_TOGGLE: 14, OP_SET_MODE: 4, OP_BU_OFF: 8}.get(op, 0)
 
 def op_shards(bases, modes, ops, per=CASES_PER_QUERY):
     out = []
